@@ -24,9 +24,11 @@ class Result:
 
 
 def make_inputs(left, right, disp, msk_left=None, msk_right=None, right_disp=None, bands=None, valid=0, nodata=1,
-                row0=0, col0=0, right_bands=None):
+                row0=0, col0=0, right_bands=None, valid_right=None, nodata_right=None):
+    """each dataset announces its own mask convention: (valid_right, nodata_right) default to the left one"""
     l = build.image_dataset(left, msk_left, disp, valid, nodata, bands, row0, col0)
-    r = build.image_dataset(right, msk_right, right_disp, valid, nodata, right_bands or bands, row0, col0)
+    r = build.image_dataset(right, msk_right, right_disp, valid if valid_right is None else valid_right,
+                            nodata if nodata_right is None else nodata_right, right_bands or bands, row0, col0)
     return l, r
 
 
@@ -47,10 +49,12 @@ def run_checked(machine, img_left, img_right, checked: dict):
 
 
 def run_pipeline(left, right, pipeline: dict, disp, msk_left=None, msk_right=None, right_disp=None, bands=None,
-                 valid=0, nodata=1, machine=None, row0=0, col0=0, spy=None, right_bands=None) -> Result:
+                 valid=0, nodata=1, machine=None, row0=0, col0=0, spy=None, right_bands=None, valid_right=None,
+                 nodata_right=None) -> Result:
     from pandora.state_machine import PandoraMachine
 
-    l, r = make_inputs(left, right, disp, msk_left, msk_right, right_disp, bands, valid, nodata, row0, col0, right_bands)
+    l, r = make_inputs(left, right, disp, msk_left, msk_right, right_disp, bands, valid, nodata, row0, col0, right_bands,
+                       valid_right, nodata_right)
     m = machine or PandoraMachine()
     checked = check_pipeline(m, pipeline, l, r)
     if spy is not None:
